@@ -56,6 +56,18 @@ def abstract_tree(rng, disc, full):
     return t
 
 
+def bracket_labels(rng, t):
+    """formats other than the bracket formats can carry parentheses and brackets in constituent labels and edge labels too
+    (replace_parens must treat them as it treats tokens)"""
+    if rng.random() < 0.25:
+        cons = [n for n in trees.preorder(t) if n.children and n is not t]
+        if cons:
+            n = rng.choice(cons)
+            n.data['label'] = rng.choice(["NP[coord]", "X(y)", "{S}", "-LRB-P", "V)"])
+            if n.data.get('edge') is not None and rng.random() < 0.5:
+                n.data['edge'] = rng.choice(["[E]", "(", "O)A"])
+
+
 def ws(rng, mandatory=False):
     if mandatory:
         return rng.choice(WS)
@@ -178,6 +190,7 @@ def export_case(rng):
     sid = rng.randint(1, 20)
     for i in range(k):
         t = abstract_tree(rng, disc=True, full=True)
+        bracket_labels(rng, t)
         if mixed:
             v4 = rng.random() < 0.5     # the version is a property of each node line, not of the file
         if not v4:
@@ -233,6 +246,7 @@ def tiger_case(rng):
     num = rng.randint(1, 30)
     for i in range(k):
         t = abstract_tree(rng, disc=True, full=True)
+        bracket_labels(rng, t)
         explicit_root = rng.random() < 0.5
         t.data['label'] = "VROOT"
         t.data['lemma'] = t.data['morph'] = None
